@@ -223,15 +223,18 @@ component("C08", "refs.sharing_patterns", "bounded")(_refs_run(0))
 
 
 # ------------------------------------------------------------------------------------------------ C14 noise
-def noise_variants(doc, rnd, k=3):
+ALL_NOISE = ["comment", "pi", "title", "desc", "metadata", "foreign_el", "foreign_attr", "symbol", "wrapper", "whitespace", "nested_descriptive", "wrap_every_shape"]
+
+
+def noise_variants(doc, rnd, k=3, each_kind=False):
     from lxml import etree
 
     NS = "http://www.w3.org/2000/svg"
     out = []
-    for _ in range(k):
+    plans = [[kind] for kind in ALL_NOISE] if each_kind else [rnd.sample(ALL_NOISE, 3) for _ in range(k)]
+    for kinds in plans:
         root = etree.fromstring(doc.encode())
         els = [e for e in root.iter() if isinstance(e.tag, str)]
-        kinds = rnd.sample(["comment", "pi", "title", "desc", "metadata", "foreign_el", "foreign_attr", "symbol", "wrapper", "whitespace"], 3)
         for kind in kinds:
             tgt = rnd.choice(els)
             parent = tgt.getparent()
@@ -245,6 +248,25 @@ def noise_variants(doc, rnd, k=3):
             elif kind in ("title", "desc", "metadata"):
                 e = etree.SubElement(tgt if len(tgt) or tgt is root else root, f"{{{NS}}}{kind}")
                 e.text = "noise"
+            elif kind == "nested_descriptive":
+                # descriptive elements may nest (metadata holding title / desc) and occur anywhere, e.g. inside a gradient
+                m = etree.Element(f"{{{NS}}}metadata")
+                etree.SubElement(m, f"{{{NS}}}title").text = "t"
+                etree.SubElement(m, f"{{{NS}}}desc").text = "d"
+                root.insert(0, m)
+                for g in root.iter(f"{{{NS}}}linearGradient", f"{{{NS}}}radialGradient"):
+                    etree.SubElement(g, f"{{{NS}}}desc").text = "about this gradient"
+                etree.SubElement(root, f"{{{NS}}}desc").text = "trailing"
+            elif kind == "wrap_every_shape":
+                for e in list(els):
+                    par = e.getparent()
+                    if par is None or etree.QName(e).localname not in ("rect", "circle", "ellipse", "path", "polygon", "polyline", "line"):
+                        continue
+                    if any(etree.QName(a).localname in ("clipPath", "defs", "text") for a in e.iterancestors() if isinstance(a.tag, str)):
+                        continue
+                    g = etree.Element(f"{{{NS}}}g")
+                    e.addprevious(g)
+                    g.append(e)
             elif kind == "foreign_el":
                 e = etree.SubElement(root, "{http://example.com/noise}thing")
                 etree.SubElement(e, f"{{{NS}}}rect", width="500", height="500")
@@ -272,7 +294,8 @@ def _noise_oracle(name, doc, out, exc, kw):
     rnd = random.Random(name)
     probs = []
     base = oracles.canonical_modulo_gradient_ids(out) if out is not None else None
-    for kinds, noisy in noise_variants(doc, rnd):
+    # hand-written documents get every kind of noise, one at a time; generated ones three random kinds, three times
+    for kinds, noisy in noise_variants(doc, rnd, each_kind=name.startswith("corpus:")):
         try:
             o2 = _convert(noisy, **kw)
         except Exception as e:  # noqa
